@@ -64,3 +64,11 @@ CASES += [
     dict(id='c14-min-level-compares-param-with-itself', prop='C14', file='src/celma/log/filter/detail/log_filter_min_level.hpp', expect='R*',
          old="   return l >= mMinLevel;", new="   return l >= l;"),
 ]
+
+LG = 'src/library/log/logging.cpp'
+CASES += [
+    dict(id='c14-getlog-by-prefix', prop='C14', file=LG, expect='R11',
+         old="      if (log_name == it.mName)\n         return it.mpLog;", new="      if (it.mName.compare( 0, log_name.length(), log_name) == 0)\n         return it.mpLog;"),
+    dict(id='c14-eq-getlog-compare-form', prop='C14', file=LG, expect=None,
+         old="      if (log_name == it.mName)\n         return it.mpLog;", new="      if (it.mName.compare( log_name) == 0)\n         return it.mpLog;"),
+]
